@@ -210,6 +210,15 @@ def h_reject(env, case):
     nm = NoiseModel()
     if case == "type":
         env.check_raises(lambda: nm.add_quantum_error("X", "amplitude_damping", 0.1), "unsupported noise type is rejected")
+        # the two keywords are matched exactly by the translator: any other spelling must be refused rather than stored and ignored
+        for kw_, pr in (("Pauli", [0.1, 0.1, 0.1]), ("DEPOL", 0.1), ("Depol", 0.2), ("pauli ", [0.1, 0.0, 0.0])):
+            try:
+                nm.add_quantum_error("X", kw_, pr)
+                accepted = True
+            except Exception:       # noqa
+                accepted = False
+            env.check_true((not accepted) or all(t in ("pauli", "depol") for t, _ in nm._quantum_errors.get("X", [])),
+                           f"noise type keyword {kw_!r}: refused, or stored under a keyword the simulator applies")
     elif case == "pauli-notlist":
         env.check_raises(lambda: nm.add_quantum_error("X", "pauli", 0.1), "pauli noise needs a list")
     elif case == "pauli-len":
